@@ -309,8 +309,8 @@ def parse_prog(namer, variants, stem='Ps', derives=('EnumString',), generic=None
 
 STEMS = ['alpha', 'bravo', 'charlie', 'delta', 'echo', 'foxtrot', 'golf', 'hotel', 'india', 'juliet']
 
-def corpus_parse(tier, seed, focus='C01'):
-    nm = Namer()
+def corpus_parse(tier, seed, focus='C01', nm=None):
+    nm = nm or Namer()
     out = []
     def A(vs, **kw):
         p = parse_prog(nm, vs, **kw)
@@ -390,8 +390,8 @@ def corpus_parse(tier, seed, focus='C01'):
 
 PRINTERS = ('Display', 'AsRefStr', 'IntoStaticStr', 'VariantNames')
 
-def corpus_print(tier, seed, derives=PRINTERS, with_forward=True, with_prefix=True, extra_derives=()):
-    nm = Namer()
+def corpus_print(tier, seed, derives=PRINTERS, with_forward=True, with_prefix=True, extra_derives=(), nm=None):
+    nm = nm or Namer()
     out = []
     der = tuple(derives) + tuple(extra_derives)
     def A(vs, derives=der, inner=None, **kw):
